@@ -43,9 +43,10 @@ type Config struct {
 	Replicas      int    `json:"replicas"`
 	UnbondingSecs int64  `json:"unbonding_secs"`
 	MaxValidators uint32 `json:"max_validators"`
-	HolderTier    []int  `json:"holder_tier"` // per user: -1 none, else tier index 0..5 (value exactly at tier), 6+ = just below tier k-6
-	WithPrices    bool   `json:"with_prices"` // oracle prices present at genesis
-	UserFunds     string `json:"user_funds"`  // hub-side initial balance per bridged denom (backed by pre-locked custody)
+	EdgeKeys      bool   `json:"edge_keys,omitempty"` // validators 0 and 1 use external addresses starting with 0xff / 0x00
+	HolderTier    []int  `json:"holder_tier"`         // per user: -1 none, else tier index 0..5 (value exactly at tier), 6+ = just below tier k-6
+	WithPrices    bool   `json:"with_prices"`         // oracle prices present at genesis
+	UserFunds     string `json:"user_funds"`          // hub-side initial balance per bridged denom (backed by pre-locked custody)
 }
 
 func (c *Config) ChainIdx(chain string) int {
@@ -177,6 +178,7 @@ func GenConfig(r *rand.Rand, profile string) Config {
 			}
 		}
 	}
+	c.EdgeKeys = r.Intn(6) == 0
 	c.Keys = make([][]bool, c.NVals)
 	for v := range c.Keys {
 		c.Keys[v] = make([]bool, len(Chains))
